@@ -277,6 +277,17 @@ CLAIMS = {
              "induction over cycles with these clauses (composed by hand, hence level other).",
         note=PYVC_TRUST + "; TerminalVar attributes as plain fields (C19); pipe contract for os.read/os.write; "
              "terminal behaviour unconstrained"),
+    "C29": dict(
+        engine="pyvc", category="other", design_ref="DESIGN.md section 4 C29",
+        technique="contract-based deductive verification: layout postcondition on the real source of "
+                  "SimulatedEBPF.__init__ (EBPFBase.__init__ and ArrayMap.collect inlined) for a ProcessSyncGroup "
+                  "whose devices declare DeviceVars with symbolic sizes, z3",
+        text="After a process sync group has been constructed, every DeviceVar of every device has an offset inside "
+             "the shared array of its map and shares no byte with any other variable of the same or another device, "
+             "for all variable sizes; devices are attached to the group. Reading and writing at (format, address) "
+             "is the ArrayGlobalVarDesc contract proved under C08. One generated configuration (three devices of "
+             "two classes); cross-process visibility is the assumed contract of multiprocessing's shared Array.",
+        note=PYVC_TRUST + "; bounded in the device configuration; spawn/pickling and shared memory assumed"),
 }
 
 NA = {
